@@ -263,6 +263,11 @@ def case_tree(T, tree):
     if R.shape[0] == R.shape[1] or True:
         B = cola.SelfAdjoint(A) if R.shape[0] == R.shape[1] else cola.Stiefel(A)
         T.eq("declare: same dense form", B.to_dense(), expected(T, R), dtype=False)
+    if R.shape[0] == R.shape[1] and A.isa(cola.SelfAdjoint):
+        # the annotation steers the generic left product (x A = (A x^H)^H for Hermitian A): same action as the matrix, complex operands included
+        from .common import ref_matmul, rfrom
+        Y = T.arr("Yl", (2, R.shape[0]), 'complex128')
+        T.eq("annotated operator: left action Y @ A", Y @ A, expected(T, ref_matmul(T, Ref(rfrom(T, Y), 'complex128'), R)), dtype=False)
 
 
 def case_routines(T, which, n, m, zero_at=None):
